@@ -269,7 +269,7 @@ func (r *registry) setAuthorizationFromChallenge(ctx context.Context, req *http.
 	switch {
 	case r.wwwAuthenticate.scheme == "bearer":
 		scope := ParseScope(r.wwwAuthenticate.params["scope"])
-		accessToken, err := r.acquireAccessToken(ctx, scope, wantScope.Union(requiredScope))
+		accessToken, err := r.acquireAccessToken(ctx, scope, requestableScope(wantScope).Union(requestableScope(requiredScope)))
 		if err != nil {
 			return false, false, err
 		}
@@ -323,10 +323,14 @@ func (r *registry) init() error {
 // returned in the challenge. The wantScope parameter indicates
 // what scope might be required in the future.
 //
+// An unlimited scope cannot be asked of a token server, so it does not
+// take part in the request (see requestableScope); the token is recorded
+// under the scope that was actually requested.
+//
 // This method assumes that there has been a previous 401 response with
 // a Www-Authenticate: Bearer... header.
 func (r *registry) acquireAccessToken(ctx context.Context, requiredScope, wantScope Scope) (string, error) {
-	scope := requiredScope.Union(wantScope)
+	scope := requestableScope(requiredScope).Union(requestableScope(wantScope))
 	tok, err := r.acquireToken(ctx, scope)
 	if err != nil {
 		var herr ociregistry.HTTPError
@@ -345,7 +349,7 @@ func (r *registry) acquireAccessToken(ctx context.Context, requiredScope, wantSc
 		// such requests anyway, so if we've got an unauthorized error
 		// and wantScope goes beyond requiredScope, it may be because
 		// the server is rejecting the request.
-		scope = requiredScope
+		scope = requestableScope(requiredScope)
 		tok, err = r.acquireToken(ctx, scope)
 		if err != nil {
 			return "", err
@@ -378,6 +382,20 @@ func (r *registry) acquireAccessToken(ctx context.Context, requiredScope, wantSc
 	// TODO persist the access token to save round trips when doing
 	// the authorization flow in a newly run executable.
 	return accessToken, nil
+}
+
+// requestableScope returns the part of s that can be named in a token
+// request. An unlimited scope has no such part: there is no scope text
+// that stands for "everything" (String prints it as "*", which a token
+// server reads, if at all, as an unknown resource), so asking for it
+// would displace the scopes that are really needed from the request
+// without obtaining anything, and the resulting token would then be
+// cached as if it were good for every scope.
+func requestableScope(s Scope) Scope {
+	if s.IsUnlimited() {
+		return Scope{}
+	}
+	return s
 }
 
 func (r *registry) acquireToken(ctx context.Context, scope Scope) (*wireToken, error) {
